@@ -28,7 +28,10 @@ STR_PROPS = {
     "C40": ("exploration", "Merge protocol: termination, in-run invariant, trace validation"),
 }
 
+DET_PROPS = {"C06": ("exploration", "Output bytes identical across schedules/knobs/history")}
+
 BUDGETS = {
+    "det": {"quick": (36, 8), "thorough": (540, 30)},
     "graph": {"quick": (32, 10), "thorough": (640, 40)},
     "str": {"quick": (32, 8), "thorough": (480, 30)},
 }
@@ -97,6 +100,29 @@ def run_str_family(prop, tier, seed):
     return report_and_exit(prop, ev, violations)
 
 
+def run_det_family(prop, tier, seed):
+    from . import family_det
+    nwl, nsched = BUDGETS["det"][tier]
+    ev = Evidence(prop, tier, seed, "exploration")
+    ev.rule = ("a class is fixed inputs + semantic arguments (class types: dyn = exe/pie/shared against "
+               "generated shared libraries with sysv/gnu/both hash tables, graph, str, script = objects "
+               "behind INPUT()/GROUP() scripts, archives and thin archives; build-id none/fast/sha1); "
+               "within a class every run varies threads 1..8, files-per-group, --wild-experiments, "
+               "scheduler strategy and seed, hash seed, prior output state (absent, shorter, longer, "
+               "random bytes, previous output), update-in-place mode, mmap, fork; all outputs of a class "
+               "must be byte-identical. distinct_nontrivial = distinct (class, interleaving-hash) pairs "
+               "with at least one context switch")
+    ev.assumptions = ["SC interleavings", "hash-map order is explored through the patched foldhash seed "
+                      "(hashbrown maps); std RandomState maps are left to the OS"]
+    jobs = [{"prop": prop, "seed": seed, "index": i, "tier": tier, "schedules": nsched}
+            for i in range(nwl)]
+    violations = _collect(prop, ev, pool_imap(family_det.run_job, jobs))
+    if ev.counters.get("class_never_linked", 0) > nwl // 4:
+        ev.write()
+        raise HarnessError("too many determinism classes never linked: generator problem")
+    return report_and_exit(prop, ev, violations)
+
+
 REQUIRED_PROBES = {
     "C40": ["probe_reserve_cas_lost", "probe_reserve_low", "probe_bucket_parked",
             "probe_put_resumes_parked_bucket", "probe_multi_group_sections"],
@@ -121,6 +147,8 @@ def run(prop, tier, seed):
         return run_graph_family(prop, tier, seed)
     if prop in STR_PROPS:
         return run_str_family(prop, tier, seed)
+    if prop in DET_PROPS:
+        return run_det_family(prop, tier, seed)
     raise HarnessError(f"no check for {prop}")
 
 
@@ -139,6 +167,11 @@ def replay(path):
         job = dict(rp["job"])
         job["prop"] = doc["property"]
         res = family_str.run_job(job)
+    elif fam == "det":
+        from . import family_det
+        job = dict(rp["job"])
+        job["prop"] = doc["property"]
+        res = family_det.run_job(job)
     else:
         raise HarnessError(f"unknown family {fam}")
     for v in res["violations"]:
